@@ -28,6 +28,15 @@ CHECKS = {
         technique="Coq proof (lia/nia over Z) + reflection over generated descriptors + differential sweep",
         design_ref="6 (C11)",
     ),
+    "C02": dict(
+        text="Coq theorems: the framing function is the unique decomposition of the stream into CRLF-free lines and rest; for EVERY list of read chunks "
+        "the receive path (feed -> UTF-8 decode with replace -> status literals + lazy regex as an explicit search) delivers exactly the parsed complete lines "
+        "of the concatenated stream in order and keeps the incomplete tail; parse(fmt S F V) = (OK,S,F,V) for every V; UTF-8 round trip for all scalar values; "
+        "end-to-end corollary. The real YncaProtocol.data_received is fed the same chunkings (random, adversarial cuts, exhaustive small streams) and compared with the model.",
+        note=BASE_NOTE + "Modelled, not verified: pyserial Packetizer/LineReader, bytearray.split, bytes.decode(utf-8, replace), re on the one pattern (hand model, validated by running the real classes).",
+        technique="Coq proof by induction over chunk lists + differential correspondence on chunked streams",
+        design_ref="6 (C02)",
+    ),
 }
 
 ALL = ["C%02d" % i for i in range(1, 21)]
